@@ -91,7 +91,7 @@ def handle (c : Case) : Verdict :=
   else if !acceptTrace trace then
     let sig := if trace.any (fun e => match e with | .other _ => true | _ => false)
       then "C33:trace:non-index-mutation" else "C33:trace:index-removed-before-save"
-    .specfalse sig s!"dmg={dmg} trace={repr trace}"
+    .specfalse sig s!"dmg={dmg} trace={trace.map fun e => match e with | .saveIndex i => "S:" ++ i | .removeIndex i => "R:" ++ i | .other w => "X:" ++ w}"
   else
   -- (a) the model on the same input
   let m := repairIndex r readAll
